@@ -53,6 +53,8 @@ def mixed(rng):
 
 # Snippets that make every registered syntax rule look at something (C13/C12/C20).
 RULE_TRIGGERS = [
+    'from __future__.a import b\n', 'x = 1\nfrom __future__.a import b\n', 'from __future__.a.b import *\n', 'raw = b"\\N{foo}"\n', 'txt = "\\N{foo}"\n',
+    'b"\\u12"\n', '"\\u12"\n', 'b"\\U0011"\n', '"\\U0011"\n', 'b"\\N{v10"\n', '"\\N{v10"\n',
     'from __future__ import *\n', 'from __future__ import annotations\n', 'from __future__ import braces\n',
     'from __future__ import nested_scopes, x\n', 'from . import *\n', 'from x import (a, b,)\n',
     'import a.b as c\n', 'from x import *\n', '__debug__ = 1\n', 'None = 1\n', 'True += 1\n',
